@@ -39,6 +39,9 @@ def _found_branch(ctx):
         ll = K.lookup_loop(loops[0])
         if ll is not None and "name == node.name" in ll["test"]:
             return fn, ll["found"], loops[0].orelse
+    ln = K.lookup_next(fn)
+    if ln is not None and "name == node.name" in ln["test"] and any("modify_value" in norm(x) for s_ in ln["found"] for x in ast.walk(s_)):
+        return fn, ln["found"], ln["orelse"]
     idx = [n for n in ast.walk(fn) if isinstance(n, ast.If) and isinstance(n.test, ast.Compare) and isinstance(n.test.ops[0], ast.In)
            and norm(n.test.left) == "node.name" and any("modify_value" in norm(x) for x in ast.walk(n))]
     if len(idx) == 1:
